@@ -172,6 +172,51 @@ class R:
                               f'walk(True, on={on!r}, back={back}) is not the reference order derived from the forward '
                               f'enter walk ({len(got)} vs {len(exp)} yields)')
                 self.distinct.add(('mode', self.name, back, on))
+        # scope walks: back=True is the mirror image (sibling order reversed at every level) of the forward scope walk
+        openers = [f for f in walked if f.a.__class__.__name__ in (
+            'Module', 'FunctionDef', 'AsyncFunctionDef', 'Lambda', 'ClassDef', 'ListComp', 'SetComp', 'DictComp',
+            'GeneratorExp')]
+        if len(openers) > 60:
+            openers = self.rnd.sample(openers, 60)
+        for f in openers:
+            for all_ in (True, False):
+                self.ev += 1
+                try:
+                    fw = list(f.walk(all_, scope=True))
+                    bw = list(f.walk(all_, scope=True, back=True))
+                except Exception as e:
+                    self.fail('C14', f'walk.scope:{self.name}:{f.a.__class__.__name__}@{getattr(f.a, "lineno", "?")}',
+                              f'walk(scope=True) raised {e!r}')
+                    continue
+                yielded = {id(x) for x in fw}
+                plain = [x for x in f.walk(all_) if id(x) in yielded]
+                if len(yielded) == len(fw) and [id(x) for x in plain] != [id(x) for x in fw]:
+                    k = next((i for i, (g, e) in enumerate(zip(fw, plain)) if g is not e), 0)
+                    self.fail('C14', f'walk.scope_order:{self.name}:{f.a.__class__.__name__}@{getattr(f.a, "lineno", "?")}:all={all_}',
+                              f'walk({all_}, scope=True) from {f.a.__class__.__name__} at line {getattr(f.a, "lineno", "?")} '
+                              f'does not yield its nodes in the order of the plain walk (first difference at yield {k}: '
+                              f'{fw[k].a.__class__.__name__} {fw[k].src[:20]!r} instead of {plain[k].a.__class__.__name__} '
+                              f'{plain[k].src[:20]!r})')
+                kids_of = {}
+                for x in fw[1:] if fw and fw[0] is f else fw:
+                    p_ = x.parent
+                    while p_ is not None and id(p_) not in yielded:
+                        p_ = p_.parent
+                    kids_of.setdefault(id(p_) if p_ is not None else None, []).append(x)
+
+                def mirror(x):
+                    out = [x]
+                    for c in reversed(kids_of.get(id(x), [])):
+                        out.extend(mirror(c))
+                    return out
+                exp = mirror(f) if fw and fw[0] is f else [y for c in reversed(kids_of.get(None, [])) for y in mirror(c)]
+                if [id(x) for x in bw] != [id(x) for x in exp]:
+                    k = next((i for i, (g, e) in enumerate(zip(bw, exp)) if g is not e), min(len(bw), len(exp)))
+                    self.fail('C14', f'walk.scope_back:{self.name}:{f.a.__class__.__name__}@{getattr(f.a, "lineno", "?")}:all={all_}',
+                              f'walk({all_}, scope=True, back=True) from {f.a.__class__.__name__} at line '
+                              f'{getattr(f.a, "lineno", "?")} is not the forward scope walk with sibling order reversed '
+                              f'({len(bw)} vs {len(exp)} nodes, first difference at yield {k})')
+                self.distinct.add(('scope_back', self.name, id(f), all_))
         # self_=False / recurse=False on sampled nodes, filters
         sample = walked if len(walked) < 150 else self.rnd.sample(walked, 150)
         for f in sample:
